@@ -321,6 +321,16 @@ func (mq *memtableQueue) Rotate() {
 	mq.rotateNoLock()
 }
 
+// rotateIfNotEmpty rotates only when the active memtable holds documents,
+// so that a flush can persist them without creating empty segments.
+func (mq *memtableQueue) rotateIfNotEmpty() {
+	mq.mu.Lock()
+	defer mq.mu.Unlock()
+	if mq.mutable.count() > 0 {
+		mq.rotateNoLock()
+	}
+}
+
 // rotateNoLock performs rotation without acquiring the lock.
 // Must be called with mq.mu held.
 func (mq *memtableQueue) rotateNoLock() {
